@@ -5,9 +5,14 @@ package collection
 // log their first and last statement; the recorded histories are validated by TLC against
 // spec/MemCacheTake.tla.  Nothing is judged here; scheduling is left to the Go runtime, a gate
 // only makes it likely that callers overlap (any outcome is a legal input of the validation).
+// Two shapes: "gated" (few callers, two keys, the first fetch is held open while the others
+// arrive) and "stagger" (many callers on one fresh key, started a few microseconds apart, with a
+// very short fetch: callers that miss the cache just before the value is stored and reach the
+// flight group just after the flight is gone).
 
 import (
 	"math/rand"
+	"sort"
 	"sync"
 	"sync/atomic"
 	"testing"
@@ -33,6 +38,10 @@ func TestVerifC17Take(t *testing.T) {
 	maxProcs := kit.EnvInt("VERIF_PROCS", 5)
 	rng := rand.New(rand.NewSource(kit.Seed()*7919 + int64(kit.EnvInt("GOMAXPROCS", 0))))
 	keys := []string{"a", "b"}
+	if kit.Env("VERIF_SHAPE", "gated") == "stagger" {
+		c17TakeStagger(rep, tr, rng, rounds, maxProcs)
+		return
+	}
 	for r := 0; r < rounds; r++ {
 		cache, err := NewCache(time.Hour)
 		if err != nil {
@@ -94,5 +103,86 @@ func TestVerifC17Take(t *testing.T) {
 		wg.Wait()
 		cache.timingWheel.Stop()
 		rep.Put(kit.Verdict{Case: r, OK: true, Steps: n * calls})
+	}
+}
+
+// c17ev is one recorded event of the stagger shape.  The sequence number is taken with one
+// atomic increment at the log point (no lock, no I/O in the callers' path); an event that is
+// complete before another one starts has the smaller number, which is all the validation needs.
+type c17ev struct {
+	seq int64
+	m   kit.M
+}
+
+// c17TakeStagger: per round a fresh cache, n callers of Take on one key released together and
+// delayed by a few hundred nanoseconds of spinning each; the fetch is not gated and almost
+// immediate, so callers pile up on the cache lock and on the flight group's lock exactly while
+// the first flight stores its value and unregisters.
+func c17TakeStagger(rep *kit.Reporter, tr *kit.Tracer, rng *rand.Rand, rounds, n int) {
+	var sink atomic.Int64
+	for r := 0; r < rounds; r++ {
+		cache, err := NewCache(time.Hour)
+		if err != nil {
+			rep.Put(kit.Verdict{Case: r, Infra: true, Msg: err.Error()})
+			return
+		}
+		spread := 1 + rng.Intn(2000)
+		work := rng.Intn(200)
+		delays := make([]int, n)
+		for p := range delays {
+			delays[p] = rng.Intn(spread)
+		}
+		var seq, vals atomic.Int64
+		evs := make([][]c17ev, n)
+		var wg sync.WaitGroup
+		start := make(chan struct{})
+		for p := 0; p < n; p++ {
+			wg.Add(1)
+			go func(p int) {
+				defer wg.Done()
+				log := func(m kit.M) { evs[p] = append(evs[p], c17ev{seq.Add(1), m}) }
+				evs[p] = make([]c17ev, 0, 4)
+				<-start
+				x := int64(0)
+				for i := 0; i < delays[p]; i++ {
+					x += int64(i)
+				}
+				sink.Add(x)
+				log(kit.M{"e": "inv", "p": p, "k": "a"})
+				val, err := cache.Take("a", func() (any, error) {
+					log(kit.M{"e": "fb", "p": p, "k": "a"})
+					y := int64(0)
+					for i := 0; i < work; i++ {
+						y += int64(i)
+					}
+					sink.Add(y)
+					v := int(vals.Add(1))
+					log(kit.M{"e": "fe", "p": p, "k": "a", "ok": true, "v": v})
+					return v, nil
+				})
+				if err != nil {
+					log(kit.M{"e": "ret", "p": p, "k": "a", "err": true, "v": 0, "own": err == c17ErrFetch})
+				} else {
+					iv, _ := val.(int)
+					log(kit.M{"e": "ret", "p": p, "k": "a", "err": false, "v": iv})
+				}
+			}(p)
+		}
+		close(start)
+		wg.Wait()
+		cache.timingWheel.Stop()
+		var all []c17ev
+		for _, e := range evs {
+			all = append(all, e...)
+		}
+		sort.Slice(all, func(i, j int) bool { return all[i].seq < all[j].seq })
+		tr.Emit(kit.M{"e": "reset", "kind": "stagger", "n": n})
+		for _, e := range all {
+			tr.Emit(e.m)
+		}
+		if vals.Load() > 1 {
+			rep.Count("rounds_with_several_fetches", 1)
+		}
+		rep.Put(kit.Verdict{Case: r, OK: true, Steps: n})
 	}
 }
